@@ -50,7 +50,7 @@ CONFIG = {
             "domain-less room versions carrying a room_id member of every (code points, bytes) size (parse paths; Build refuses any room ID "
             "there), and limits.receipt_text: receipt of whole event texts in which an over-long type / state_key / sender / room_id stands "
             "beside a short case variant of the name (the specification reads the limits off the exact members of the JSON; such texts are "
-            "refused since 4be2601); vertable: one op per "
+            "refused since 849cf70); vertable: one op per "
             "(version, probe). An op is non-trivial when its argument is not a pool constant shorter than 4 bytes; distinct by op line",
     "nontrivial": lambda op, impl: len(op) > 24,
     "trusted": COMMON_TRUSTED + [
